@@ -45,8 +45,9 @@ def map_calls(C, o, which, names=None):
             continue
         r = node['recv']
         hit = C.is_idset_place(r) if which == 'idset' else C.is_map_place(r, which)
-        if hit and (names is None or node['name'] in names):
-            out.append((i, node['name'], args, node))
+        name = cal.rsplit('::', 1)[-1]      # the event's method: a `retain` is recorded as the removals it amounts to (absx)
+        if hit and (names is None or name in names):
+            out.append((i, name, args, node))
     return out
 
 def sends(o, sender_ty):
